@@ -39,6 +39,21 @@ impl TimeZone {
             }
         };
 
+        if data_block
+            .transition_types
+            .iter()
+            .any(|&transition_type| transition_type as usize >= header.type_count)
+        {
+            return Err(TimeZoneError::InvalidTzFile(
+                "Transition refers to a missing local time type",
+            ));
+        }
+        if header.type_count == 0 && footer.is_none() {
+            return Err(TimeZoneError::InvalidTzFile(
+                "TZif file has neither a local time type nor a footer",
+            ));
+        }
+
         let mut transitions: Vec<Transition> = Vec::with_capacity(header.transition_count);
 
         for (transition_time, &transition_type) in data_block
